@@ -268,3 +268,34 @@ def near(draw, t, v):
         bb[i] = (bb[i] + draw(st.sampled_from([1, 255]))) % 256
         return (bytes(bb), ep)
     return draw(values(t))
+
+
+# ---- annotations -----------------------------------------------------------------------------------
+NAMES = ["a", "b", "c", "a", "owner", "amount", "x1", "default", "root", "int_0", "nat_1", "unit_0", "pair_0"]
+
+
+@st.composite
+def decorate(draw, t, field_ok=False, p_field=0.45, p_type=0.12, names=None):
+    """Adds %field annotations where Tezos allows them (pair / or components and the root) and :type annotations
+    anywhere. Returns the annotated type expression (values are unaffected)."""
+    names = names or NAMES
+    out = {"prim": t["prim"]}
+    annots = []
+    if field_ok and draw(st.floats(0, 1)) < p_field:
+        annots.append("%" + draw(st.sampled_from(names)))
+    if draw(st.floats(0, 1)) < p_type:
+        annots.append(":" + draw(st.sampled_from(names)))
+    args = rv.targs(t)
+    if args:
+        child_field = t["prim"] in ("pair", "or")
+        out["args"] = [draw(decorate(a, child_field, p_field, p_type, names)) for a in args]
+    if annots:
+        out["annots"] = annots
+    return out
+
+
+def strip(t):
+    out = {"prim": t["prim"]}
+    if t.get("args"):
+        out["args"] = [strip(a) for a in t["args"]]
+    return out
